@@ -1,0 +1,37 @@
+//go:build verif
+
+// Hooks for the verification harness in /verif (C33). Add-only: read access
+// to the reference lists and node tables of the node namespaces.
+
+package server
+
+import "github.com/gopcua/opcua/ua"
+
+// VerifRefs returns the node's reference list (the slice Browse iterates over).
+func (n *Node) VerifRefs() []*ua.ReferenceDescription { return n.refs }
+
+// VerifNodeIDs returns the ids of all nodes in the namespace's lookup table,
+// in insertion order of the node list (ids that were added twice appear once).
+func (ns *NodeNameSpace) VerifNodeIDs() []*ua.NodeID {
+	ns.mu.RLock()
+	defer ns.mu.RUnlock()
+	seen := map[string]bool{}
+	var out []*ua.NodeID
+	for _, n := range ns.nodes {
+		k := n.ID().String()
+		if seen[k] || ns.m[k] == nil {
+			continue
+		}
+		seen[k] = true
+		out = append(out, n.ID())
+	}
+	return out
+}
+
+// VerifSuitableRefType calls suitableRefType.
+func (s *Server) VerifSuitableRefType(ref1, ref2 *ua.NodeID, subtypes bool) bool {
+	return suitableRefType(s, ref1, ref2, subtypes)
+}
+
+// VerifGetSubRefs calls getSubRefs.
+func (s *Server) VerifGetSubRefs(nid *ua.NodeID) []*ua.NodeID { return getSubRefs(s, nid) }
